@@ -228,9 +228,40 @@ fn process(sh: &Shared, cmds: &[Value], line_no: usize, line: &Value, pool: &mut
     }
 }
 
+/// --explain <violation.json>: re-execute the commands of a stored violation on a fresh real ConfigState and
+/// print, per command, the result and the projection of the configuration (one JSON object per line).
+fn explain(file: &str) {
+    let v: Value = serde_json::from_str(&std::fs::read_to_string(file).expect("replay file")).expect("replay JSON");
+    let conc = Conc::new(v["variant"].as_u64().unwrap_or(0));
+    let mut cmds: Vec<Value> = v["path"].as_array().cloned().or_else(|| v["commands"].as_array().cloned()).unwrap_or_default();
+    for k in ["cmd", "step", "then"] {
+        if v["detail"][k].is_object() {
+            cmds.push(v["detail"][k].clone());
+        }
+    }
+    let mut st = ConfigState::new();
+    for (i, c) in cmds.iter().enumerate() {
+        let before = cfg_of(&st);
+        let r = dispatch(&mut st, &conc.request(c));
+        let changed = differing_maps(&cfg_of(&st), &before);
+        vh::util::emit(&json!({"step": i, "cmd": c, "result": match &r { Ok(true) => "ok".to_string(), Ok(false) => "err".to_string(), Err(p) => format!("panic: {p}") },
+                               "maps_changed": changed, "state": conc.project(&st)}));
+        if r.is_err() { return; }
+    }
+    let mut rnd = |n: usize| n / 2;
+    let (p5, _) = c05_round_trips(&st, true, &mut rnd);
+    vh::util::emit(&json!({"final": "save/replay round trips", "problems": p5}));
+    vh::util::emit(&json!({"final": "diff(a, a)", "problems": c06_self(&st)}));
+    vh::util::emit(&json!({"final": "diff to and from the empty configuration", "problems": [c06_pair(&st, &ConfigState::new()).0, c06_pair(&ConfigState::new(), &st).0]}));
+}
+
 fn main() {
     vh::util::quiet_panics();
     let args: Vec<String> = std::env::args().collect();
+    if args.len() >= 3 && args[1] == "--explain" {
+        explain(&args[2]);
+        return;
+    }
     let (mut seed, mut threads, mut mode, mut variant, mut pairs, mut files_every) = (1u64, 8usize, "c07".to_string(), 0u64, 2usize, 1u64);
     let mut i = 1;
     while i + 1 < args.len() + 1 && i < args.len() {
